@@ -206,6 +206,22 @@ def check_views(s, ix, record, counters):
                 if len(seen_docs) != len(set(seen_docs)) or set(reader.stored_fields(dn)["u"] for dn in seen_docs) != exp:
                     raise Violation("groups_partition_exactly", "%s: %s grouped by %s: the groups hold documents %s (matched %s)"
                                     % (where, desc, f, sorted(seen_docs), sorted(exp)), sig="groups_cover:" + f)
+                # the other group containers are views of the same partition: a count, an unordered
+                # set, and the best (= first in result order) document of each group
+                for mname, mtype in (("Count", sorting.Count), ("UnorderedList", sorting.UnorderedList), ("Best", sorting.Best)):
+                    counters["evals"] += 1
+                    alt = run(q, limit=None, groupedby=sorting.FieldFacet(f, maptype=mtype)).groups(f)
+                    for key, dns in groups.items():
+                        a = alt.get(key)
+                        ok = (a == len(dns) if mname == "Count" else
+                              (a is not None and sorted(a) == sorted(dns)) if mname == "UnorderedList" else
+                              a == dns[0])
+                        if not ok:
+                            raise Violation("groups_partition_exactly", "%s: %s grouped by %s: maptype=%s gives %r for key %r, the ordered groups say %s"
+                                            % (where, desc, f, mname, a, key, list(dns)[:8]), sig="groups_maptype:%s" % mname)
+                    if set(alt.keys()) != set(groups.keys()):
+                        raise Violation("groups_partition_exactly", "%s: %s grouped by %s: maptype=%s has keys %s, the ordered groups %s"
+                                        % (where, desc, f, mname, sorted(alt.keys(), key=repr)[:8], sorted(groups.keys(), key=repr)[:8]), sig="groups_maptype:%s" % mname)
             if have_kw:
                 counters["evals"] += 1
                 res = run(q, limit=None, groupedby=sorting.FieldFacet("kw", allow_overlap=True))
@@ -261,13 +277,21 @@ def check_views(s, ix, record, counters):
             fdocs = set(fres.docs())
             for how, obj in (("query", fq), ("results", fres), ("idset", fdocs)):
                 counters["evals"] += 1
-                got = [(h["u"], h.score) for h in run(q, limit=None, filter=obj)]
+                fr = run(q, limit=None, filter=obj)
+                got = [(h["u"], h.score) for h in fr]
                 want = [(h["u"], h.score) for h in full if h["u"] in fset]
+                if fr.filtered_count != len(full) - len(want):
+                    raise Violation("filter_is_intersection", "%s: %s filter(%s)=%s: filtered_count=%s, the filter removes %d of the %d matches"
+                                    % (where, desc, how, Q.show(fspec), fr.filtered_count, len(full) - len(want), len(full)), sig="filtered_count:filter")
                 if [u for u, _ in got] != [u for u, _ in want] or any(abs(a[1] - b[1]) > 1e-9 for a, b in zip(got, want)):
                     raise Violation("filter_is_intersection", "%s: %s filter(%s)=%s returned %s, the unfiltered ranking restricted to the filter is %s"
                                     % (where, desc, how, Q.show(fspec), got[:8], want[:8]), sig="filter:" + how)
-                got = [(h["u"], h.score) for h in run(q, limit=None, mask=obj)]
+                mr = run(q, limit=None, mask=obj)
+                got = [(h["u"], h.score) for h in mr]
                 want = [(h["u"], h.score) for h in full if h["u"] not in fset]
+                if mr.filtered_count != len(full) - len(want):
+                    raise Violation("mask_is_difference", "%s: %s mask(%s)=%s: filtered_count=%s, the mask removes %d of the %d matches"
+                                    % (where, desc, how, Q.show(fspec), mr.filtered_count, len(full) - len(want), len(full)), sig="filtered_count:mask")
                 if [u for u, _ in got] != [u for u, _ in want] or any(abs(a[1] - b[1]) > 1e-9 for a, b in zip(got, want)):
                     raise Violation("mask_is_difference", "%s: %s mask(%s)=%s returned %s, the unmasked ranking minus the mask is %s"
                                     % (where, desc, how, Q.show(fspec), got[:8], want[:8]), sig="mask:" + how)
